@@ -212,6 +212,11 @@ func genFileSpec(r *rand.Rand, id string) *fileSpec {
 		if ab.need > len(c.Rules[i].Rhs) {
 			ab = actionBodies[3]
 		}
+		if len(c.Rules[i].Rhs) == 0 && len(precToks) > 0 && r.Intn(2) == 0 {
+			// an empty alternative that consists of nothing but its %prec annotation ("opt : %prec X | ...")
+			c.Rules[i].Prec = precToks[r.Intn(len(precToks))]
+			ab = actionBodies[0]
+		}
 		fs.Actions = append(fs.Actions, ab.text)
 		join := i > 0 && c.Rules[i-1].Lhs == c.Rules[i].Lhs && (r.Intn(3) != 0 || forceJoin[i])
 		fs.AltJoin = append(fs.AltJoin, join)
@@ -253,7 +258,11 @@ func (fs *fileSpec) lexemes() []lexeme {
 			}
 			w(symText(t.Sym()))
 			if t.Num != 0 {
-				w(fmt.Sprint(t.Num))
+				if idHash(c.ID+t.Name)%3 == 0 {
+					w(fmt.Sprintf("%05d", t.Num)) // a decimal numeral may have leading zeros
+				} else {
+					w(fmt.Sprint(t.Num))
+				}
 			}
 		case 'p':
 			var i int
@@ -345,7 +354,11 @@ func (fs *fileSpec) want() fileView {
 		if !agreed {
 			eff = "?"
 		}
-		v.Rules = append(v.Rules, fileRule{Lhs: ru.Lhs, Rhs: rhs, Prec: ru.Prec, Action: strings.TrimSpace(fs.Actions[i]), EffPrec: eff})
+		prec := ru.Prec
+		if prec != "" && c.precLevel(prec) == 0 {
+			prec = "" // %prec naming a symbol without a precedence level gives the rule nothing: there is nothing to carry
+		}
+		v.Rules = append(v.Rules, fileRule{Lhs: ru.Lhs, Rhs: rhs, Prec: prec, Action: strings.TrimSpace(fs.Actions[i]), EffPrec: eff})
 	}
 	tp := map[string]tokPrec{}
 	for _, p := range c.TokPrec() {
@@ -576,7 +589,7 @@ func cmdFileObs(args []string) {
 					}
 				}
 				for i, ru := range s.Case.Rules {
-					if i+1 < len(root.LALR1.G.ProductoinRules) && ru.Prec != "" {
+					if i+1 < len(root.LALR1.G.ProductoinRules) && ru.Prec != "" && s.Case.precLevel(ru.Prec) != 0 {
 						ps := root.LALR1.G.ProductoinRules[i+1].PrecSymbol
 						if ps == nil || projName(int(ps.ID), ps.Name) != ru.Prec {
 							o.RulePrecOK = false
